@@ -173,6 +173,8 @@ def to_poly(s, atom_map=None, _depth: int = 0) -> Optional[Poly]:
             return args[0]
         if name in COMPLEMENT_FUNCS and len(args) == 1:
             return _complement_call(name, args[0])
+        if name in EVEN_FUNCS and len(args) == 1:
+            return p_atom(("call", name, freeze(_abs_canon(args[0]))))
         # odd/even structure of a few functions is used by the symmetry rules through recognised shapes only
         return p_atom(("call", name) + tuple(freeze(a) for a in args))
     if k == "fold":
@@ -186,7 +188,14 @@ def to_poly(s, atom_map=None, _depth: int = 0) -> Optional[Poly]:
         if atom_map is not None:
             lt = atom_map(lt)
         return p_atom(("fold", s[1][1], freeze(pe) if pe is not None else None, lt))
-    if k in ("max", "min", "abs", "cmp"):
+    if k == "abs":
+        inner = to_poly(s[1], atom_map, _depth)
+        if inner is None:
+            return None
+        if len(inner) == 1 and () in inner:
+            return p_const(abs(inner[()]))
+        return p_atom(("abs", freeze(_abs_canon(inner))))
+    if k in ("max", "min", "cmp"):
         args = []
         for x in s[1:]:
             if isinstance(x, tuple) and x and x[0] not in ("lenterm",):
@@ -205,6 +214,18 @@ def to_poly(s, atom_map=None, _depth: int = 0) -> Optional[Poly]:
 
 # functions with f(z) + f(-z) = 1, known by a recognised shape (logistic) or by role (the Gaussian CDF)
 COMPLEMENT_FUNCS = {"$logistic", "NormalDist.cdf", "fn:phi_major"}
+
+
+# even functions f(-z) = f(z) (the Gaussian density), by role
+EVEN_FUNCS = {"NormalDist.pdf", "fn:phi_minor"}
+
+
+def _abs_canon(z: Poly) -> Poly:
+    """Representative of {z, -z}: leading coefficient positive."""
+    if not z:
+        return z
+    lead = sorted(z.items(), key=repr)[0][1]
+    return p_neg(z) if lead < 0 else z
 
 
 def _logistic_arg(s):
